@@ -266,6 +266,26 @@ def next {α : Type} : Iter α → M (α × Iter α)
 /-- an upper bound on the number of passes of `for x in it` (every pass takes at least one item) -/
 def iterFuel {α : Type} (it : Iter α) : List Unit := List.replicate it.length ()
 
+/-- what a downloader method of `tlefile.Downloader` delivers: a dict source name -> entries (`fetch_plain_tle`) or a
+    list of entries; `isinstance(x, dict)` tells them apart -/
+inductive Fetched (E : Type)
+  | bySource (d : Dict Str (List E))
+  | plain (l : List E)
+
+def Fetched.isDict {E : Type} : Fetched E → Bool
+  | .bySource _ => true
+  | .plain _ => false
+
+/-- the value inside the branch `isinstance(x, dict)` -/
+def Fetched.dict {E : Type} : Fetched E → Dict Str (List E)
+  | .bySource d => d
+  | .plain _ => []
+
+/-- the value inside the other branch -/
+def Fetched.list {E : Type} : Fetched E → List E
+  | .plain l => l
+  | .bySource _ => []
+
 /-! ### float arithmetic is not interpreted: the operations the translated code applies to floats -/
 class FloatOps (F : Type) where
   /-- an `int` operand of a float operation -/
